@@ -13,6 +13,7 @@ import pathlib
 import pickle as real_pickle
 import random
 import shutil
+import shutil as real_shutil
 import types
 
 import numpy as real_np
@@ -35,7 +36,8 @@ def value_kind_for(storage, wl):
         return 'ndarray'
     if storage == '_NpcArrayStorage':
         return 'npc'
-    return wl.choice(['int', 'tuple', 'ndarray_pickled', 'dict'])
+    # 'opt': None is a value like any other (uid 0 stands for it: the one value that is not unique per write)
+    return wl.choice(['int', 'tuple', 'ndarray_pickled', 'dict', 'opt'])
 
 
 _CHINFO = []
@@ -48,9 +50,16 @@ def _chinfo():
     return _CHINFO[0]
 
 
+def canon_uid(kind, uid):
+    """'opt' values: every third write stores None, which is represented by uid 0 in model and history."""
+    return 0 if (kind == 'opt' and uid % 3 == 0) else uid
+
+
 def mkval(kind, uid):
     if kind == 'int':
         return uid
+    if kind == 'opt':
+        return None if uid == 0 else uid
     if kind == 'tuple':
         return (uid, 'x' * (uid % 7), float(uid) / 4)
     if kind == 'dict':
@@ -82,6 +91,8 @@ def val_uid(kind, v):
     try:
         if kind == 'int':
             uid = v
+        elif kind == 'opt':
+            uid = 0 if v is None else v
         elif kind == 'tuple':
             uid = v[0]
         elif kind == 'dict':
@@ -93,7 +104,7 @@ def val_uid(kind, v):
         if not isinstance(uid, int) or isinstance(uid, bool):
             return ('bad', repr(v)[:80])
         ref = mkval(kind, uid)
-        if kind in ('int', 'tuple', 'dict'):
+        if kind in ('int', 'tuple', 'dict', 'opt'):
             ok = (type(v) is type(ref)) and v == ref
         elif kind in ('ndarray', 'ndarray_pickled'):
             ok = isinstance(v, real_np.ndarray) and v.shape == ref.shape and bool((v == ref).all())
@@ -113,8 +124,9 @@ def val_uid(kind, v):
 class Injector:
     """Counts storage-level I/O calls passing the seams and fails the ones named in the plan."""
 
-    def __init__(self, faults, sched):
+    def __init__(self, faults, sched, faults_at=()):
         self.plan = {int(k): kind for k, kind in faults}
+        self.at = {(what, int(n)): kind for what, n, kind in faults_at}  # the n-th call of one kind of I/O call
         self.n = 0
         self.fired = []
         self.sched = sched
@@ -123,7 +135,7 @@ class Injector:
     def tick(self, what):
         self.n += 1
         self.calls[what] = self.calls.get(what, 0) + 1
-        kind = self.plan.get(self.n)
+        kind = self.plan.get(self.n) or self.at.get((what, self.calls[what]))
         if kind is not None:
             self.fired.append([self.n, kind, what])
             self.sched.probe('fault_fired:io:' + kind)
@@ -240,6 +252,30 @@ def install_seams(inj):
             raise _oserror('eio')
         return real_load(h5gr, path, ignore_unknown, exclude)
 
+    class ShutilProxy:
+        def __getattr__(self, name):
+            return getattr(real_shutil, name)
+
+        @staticmethod
+        def rmtree(path, *a, **kw):
+            kind = inj.tick('rmtree')
+            if kind is not None:
+                raise _oserror('eio')
+            return real_shutil.rmtree(path, *a, **kw)
+
+    class OsProxy:
+        def __getattr__(self, name):
+            return getattr(os, name)
+
+        @staticmethod
+        def remove(path, *a, **kw):
+            kind = inj.tick('os.remove')
+            if kind is not None:
+                raise _oserror('eio')
+            return os.remove(path, *a, **kw)
+
+    setattr_('shutil', ShutilProxy())
+    setattr_('os', OsProxy())
     setattr_('open', f_open)
     setattr_('pickle', PickleProxy())
     setattr_('np', NpProxy())
@@ -372,12 +408,18 @@ def gen_plan(run_seed, fault_mode=None):
     if fault_mode is None:
         fault_mode = 'none'
     faults = []
+    faults_at = []
     kills = []
     stalls = []
     if fault_mode == 'io':
         n_io = max(1, sum(1 for o in ops if o[0] in ('set', 'get', 'del', 'pop', 'update', 'setdefault', 'items')))
         for _ in range(fl.choice([1, 1, 2])):
             faults.append([fl.randint(1, 2 * n_io + 2), fl.choice(['enospc', 'eio', 'truncate'])])
+        if fl.random() < 0.3:
+            # the clean-up at close fails (directory / file cannot be removed); sometimes this is the only fault
+            faults_at.append([fl.choice(['rmtree', 'rmtree', 'os.remove']), 1, 'eio'])
+            if fl.random() < 0.5:
+                faults = []
     elif fault_mode == 'kill' and threaded:
         kills.append([1, fl.randint(2, 60), fl.choice(['MemoryError', 'RuntimeError'])])
     elif fault_mode == 'stall' and threaded:
@@ -391,6 +433,7 @@ def gen_plan(run_seed, fault_mode=None):
         'ops': ops,
         'fault_mode': fault_mode,
         'faults': faults,  # [k-th storage I/O call, kind]
+        'faults_at': faults_at,  # [name of the I/O call, n-th call of that name, kind]
         'kills': kills,  # [tid, n-th switch point of that thread, exception class]
         'stalls': stalls,  # [before op index, virtual seconds the worker is unschedulable]
         'sched_seed': core.sub_seed(run_seed, 'schedule'),
@@ -399,6 +442,36 @@ def gen_plan(run_seed, fault_mode=None):
 
 # ---------------------------------------------------------------------------------------------
 # execution against the model
+
+class _LogProxy:
+    """Stand-in for the module-level `logger` of tenpy.tools.thread / tenpy.tools.cache: error reports (this is how
+    a dying worker thread announces itself) are recorded; nothing is printed."""
+
+    def __init__(self, real, sink):
+        self._real = real
+        self._sink = sink
+
+    def _rec(self, level, msg, args):
+        import sys
+        try:
+            text = str(msg) % args if args else str(msg)
+        except Exception:  # noqa: BLE001
+            text = str(msg)
+        exc = sys.exc_info()[1]
+        self._sink.append([level, text[:200], f'{type(exc).__name__}: {exc}'[:200] if exc is not None else None])
+
+    def exception(self, msg, *args, **kw):
+        self._rec('exception', msg, args)
+
+    def error(self, msg, *args, **kw):
+        self._rec('error', msg, args)
+
+    def critical(self, msg, *args, **kw):
+        self._rec('critical', msg, args)
+
+    def __getattr__(self, name):
+        return getattr(self._real, name)
+
 
 class Violation(Exception):
     def __init__(self, invariant, detail, facts=None, op_index=None):
@@ -423,16 +496,20 @@ def execute(plan, scratch_root, decisions=None, jitters=None):
     sched.kill_labels = {'q.get', 'ev.is_set'}
     for tid, n, exc_name in plan.get('kills', []):
         sched.kill_at[(tid, n)] = {'MemoryError': MemoryError, 'RuntimeError': RuntimeError}[exc_name]('injected')
-    inj = Injector(plan.get('faults', []), sched)
+    inj = Injector(plan.get('faults', []), sched, plan.get('faults_at', []))
     qmod, tmod = sched.modules()
     saved_q, saved_t = tt.queue, tt.threading
     tt.queue, tt.threading = qmod, tmod
     saved = install_seams(inj)
+    error_log = []
+    saved_loggers = (tt.logger, tc.logger)
+    tt.logger, tc.logger = _LogProxy(tt.logger, error_log), _LogProxy(tc.logger, error_log)
     rundir = os.path.join(scratch_root, 'run')
     shutil.rmtree(rundir, ignore_errors=True)
     os.makedirs(rundir)
     res = {'violation': None, 'ops_done': 0}
     st = _RunState(plan, sched, inj, rundir)
+    st.error_log = error_log
     try:
         try:
             st.open()
@@ -460,6 +537,7 @@ def execute(plan, scratch_root, decisions=None, jitters=None):
         leaked = sched.shutdown()
         remove_seams(saved)
         tt.queue, tt.threading = saved_q, saved_t
+        tt.logger, tc.logger = saved_loggers
         st.cleanup_files()
         shutil.rmtree(rundir, ignore_errors=True)
     if leaked:
@@ -501,6 +579,7 @@ class _RunState:
         self.cur_op_kind = None
         self.worker_obj = None
         self.fault_seen = False  # an injected fault (io error / kill) has fired
+        self.error_log = []
         self.stalls = {int(i): float(t) for i, t in plan.get('stalls', [])}
 
     # ---------------------------------------------------------------- helpers
@@ -512,6 +591,19 @@ class _RunState:
     def _note_fault(self):
         if self.inj.fired or self.sched.probes.get('fault_fired:thread_kill'):
             self.fault_seen = True
+
+    def check_error_log(self):
+        """Closing is clean, and without a fault nothing fails: an error report from the worker thread (the task
+        it was running raised) in a run where no fault was injected means that cache and thread stepped on each
+        other."""
+        self._note_fault()
+        if self.error_log and not self.fault_seen:
+            lvl, text, exc = self.error_log[0]
+            facts = self.facts_common()
+            facts['op'] = self.cur_op_kind
+            facts['error'] = (exc or text).split(':')[0]
+            raise Violation('cache.error_logged_without_fault',
+                            f'no fault was injected, yet tenpy reported: {text!r} ({exc})', facts, self.cur_index)
 
     def worker_dead(self):
         # independent of tenpy's attribute names: sim thread 1 is the first thread created, i.e. the cache worker
@@ -617,6 +709,7 @@ class _RunState:
         if not self.closed and self.caches:
             self.sched.begin_op()
             self.do_close('exit' if self.cfg['enter'] else 'close')
+        self.check_error_log()
 
     def cleanup_files(self):
         pass
@@ -624,6 +717,11 @@ class _RunState:
     # ---------------------------------------------------------------- one operation
     def step(self, i, op):
         kind = op[0]
+        if self.kind == 'opt':
+            if kind in ('set', 'setdefault'):
+                op = op[:3] + [canon_uid('opt', op[3])]
+            elif kind == 'update':
+                op = ['update', op[1], [[k, canon_uid('opt', u)] for k, u in op[2]]]
         self.cur_index = i
         self.cur_op_kind = kind
         sched = self.sched
@@ -643,6 +741,7 @@ class _RunState:
                 return
             self.do_close(op[1])
             self.trace.append([i, 'closed'])
+            self.check_error_log()
             return
         c = op[1]
         if c not in self.caches:
@@ -667,6 +766,7 @@ class _RunState:
         if kind == 'sub' and status == 'ok' and not self.closed:
             self.add_cache(_sub_index(op), got)
         self.update_model(kind, op, c, outcome, fault_in_op)
+        self.check_error_log()
 
     def expected(self, kind, op, model):
         if kind == 'set':
